@@ -630,12 +630,16 @@ namespace Dune
       DUNE_ASSERT_BOUNDS(M.rows() == rows());
       AutonomousValue<MAT> C(asImp());
 
+      // the product is accumulated in the copy: M may be this matrix itself
       for (size_type i=0; i<rows(); i++)
         for (size_type j=0; j<cols(); j++) {
-          (*this)[i][j] = 0;
+          C[i][j] = 0;
           for (size_type k=0; k<rows(); k++)
-            (*this)[i][j] += M[i][k]*C[k][j];
+            C[i][j] += M[i][k]*(*this)[k][j];
         }
+      for (size_type i=0; i<rows(); i++)
+        for (size_type j=0; j<cols(); j++)
+          (*this)[i][j] = C[i][j];
 
       return asImp();
     }
@@ -648,12 +652,16 @@ namespace Dune
       DUNE_ASSERT_BOUNDS(M.cols() == cols());
       AutonomousValue<MAT> C(asImp());
 
+      // the product is accumulated in the copy: M may be this matrix itself
       for (size_type i=0; i<rows(); i++)
         for (size_type j=0; j<cols(); j++) {
-          (*this)[i][j] = 0;
+          C[i][j] = 0;
           for (size_type k=0; k<cols(); k++)
-            (*this)[i][j] += C[i][k]*M[k][j];
+            C[i][j] += (*this)[i][k]*M[k][j];
         }
+      for (size_type i=0; i<rows(); i++)
+        for (size_type j=0; j<cols(); j++)
+          (*this)[i][j] = C[i][j];
       return asImp();
     }
 
